@@ -20,6 +20,8 @@ pub struct Scn {
     pub want_dumps: u8,
     /// quiescent snapshots carry full dumps (data, hooks, env)
     pub full_views: bool,
+    /// quiescent snapshots also carry the rows of the store
+    pub capture_store: bool,
     pub horizon: usize,
 }
 
@@ -32,6 +34,7 @@ impl Scn {
             cfg: Cfg::default(),
             want_dumps: crate::world::DUMP_NONE,
             full_views: false,
+            capture_store: false,
             horizon: 400,
         }
     }
@@ -62,6 +65,23 @@ pub struct QPoint {
     pub at: usize,
     pub views: BTreeMap<String, Option<ProcDump>>,
     pub quiescent: bool,
+    /// rows of the store at this point (only when the scenario asks for them): pid -> (proc row, task rows)
+    pub stored: Option<BTreeMap<String, (Option<Value>, Vec<Value>)>>,
+}
+
+/// the proc row and the task rows of a process as the store has them
+pub fn stored_rows(s: &Session, pid: &str) -> (Option<Value>, Vec<Value>) {
+    use acts::query::{Cond, Expr, Query};
+    let h = s.engine.verif();
+    let proc = h.procs().find(pid).ok().map(|p| serde_json::to_value(&p).unwrap());
+    let q = Query::new().push(Cond::and().push(Expr::eq("pid", pid.to_string())));
+    let mut tasks: Vec<Value> = h
+        .tasks()
+        .query(&q)
+        .map(|p| p.rows.iter().map(|t| serde_json::to_value(t).unwrap()).collect())
+        .unwrap_or_default();
+    tasks.sort_by_key(|t| t["tid"].as_str().unwrap_or("").to_string());
+    (proc, tasks)
 }
 
 pub struct Exec {
@@ -107,16 +127,23 @@ pub fn run_scn_with(
     let arun = {
         let pids = pids.clone();
         let full_views = scn.full_views;
+        let capture_store = scn.capture_store;
         let mut observe = |s: &mut Session, quiescent: bool| {
             if quiescent || snapshot_every_boundary {
                 let mut views = BTreeMap::new();
                 for p in &pids {
                     views.insert(p.clone(), if full_views { s.dump(p) } else { s.dump_light(p) });
                 }
+                let stored = if capture_store && quiescent {
+                    Some(pids.iter().map(|p| (p.clone(), stored_rows(s, p))).collect())
+                } else {
+                    None
+                };
                 points.push(QPoint {
                     at: s.w.trace_len(),
                     views,
                     quiescent,
+                    stored,
                 });
             }
         };
